@@ -19,6 +19,7 @@ and depth.
 import CtyModel.Lemmas.UnifyTyLaws
 import CtyModel.Lemmas.UnifyProps
 import CtyModel.Lemmas.UnifyNoPanic
+import CtyModel.Lemmas.UnifyTopo
 namespace CtyModel
 namespace C09
 open Convert Ty Unify
@@ -426,6 +427,89 @@ theorem noPanicApplied_false : ¬ NoPanicApplied := by
 
 example : (unifyF (Env.std Env.simple) 2 true [.object ["a"] [.string] [false], .tuple [.bool], .dyn]).isPanic = false :=
   no_panic _ 2 true _ (by decide)
+
+/-! ## The preference order -/
+
+/-- `sortTypes` is Kahn's algorithm over the graph "`compareTypes(tys[i], tys[j]) < 0`"
+(`prefers`; the comparison is made once per pair, lower index first).  What the code
+guarantees, for EVERY list of types: the nodes it visits (`sortVisited`: the filled
+part of the `result` array) are visited in a topological order — a type is tried as
+unification target only after every type preferred to it … -/
+theorem sort_is_topological (tys : List Ty) (k m i : Nat) (hk : (sortVisited tys)[k]? = some m)
+    (hp : prefers tys i m = true) : i ∈ (sortVisited tys).take k :=
+  (sortVisited_spec tys).1 k m hk i hp
+
+/-- … no node is visited twice, every visited node is an index into the list … -/
+theorem sort_visits_once (tys : List Ty) : (sortVisited tys).Nodup ∧ ∀ m ∈ sortVisited tys, m < tys.length :=
+  (sortVisited_spec tys).2
+
+/-- … and the returned slice is the visited part followed by zeros (the slots of
+`result` that the queue window never reached). -/
+theorem sort_result (tys : List Ty) :
+    sortTypes tys = sortVisited tys ++ List.replicate (tys.length - (sortVisited tys).length) 0 :=
+  sortTypes_eq tys
+
+/-- Hence, whenever every node is visited (which is the case unless the preference
+relation has a cycle on the list), the result is a permutation of the indices in
+topological order. -/
+theorem sort_is_permutation_partial (tys : List Ty) (h : (sortVisited tys).length = tys.length) :
+    sortTypes tys = sortVisited tys ∧ isPermutation tys.length (sortTypes tys) = true := by
+  have he : sortTypes tys = sortVisited tys := by rw [sort_result, h]; simp
+  refine ⟨he, ?_⟩
+  obtain ⟨hnd, hlt⟩ := sort_visits_once tys
+  rw [he]
+  simp only [isPermutation, h, beq_self_eq_true, Bool.true_and, List.all_eq_true, List.mem_range,
+    List.contains_iff_mem]
+  intro i hi
+  apply Classical.byContradiction
+  intro hni
+  -- pigeonhole: `length` distinct indices below `length`, none of them `i`
+  have hsub : ∀ x ∈ sortVisited tys, x ∈ (List.range tys.length).filter (fun x => x != i) := by
+    intro x hx
+    refine List.mem_filter.mpr ⟨List.mem_range.mpr (hlt x hx), ?_⟩
+    have : x ≠ i := fun e => hni (e ▸ hx)
+    simpa using this
+  have hle := List.Nodup.length_le_of_subset hnd hsub
+  have hst := filter_length_strict (fun x => x != i) (fun _ => true) (List.range tys.length)
+    (fun _ _ _ => rfl) ⟨i, List.mem_range.mpr hi, rfl, by simp⟩
+  have hall : (List.range tys.length).filter (fun _ => true) = List.range tys.length :=
+    List.filter_eq_self.mpr (fun _ _ => rfl)
+  rw [hall, List.length_range] at hst
+  omega
+
+/-- Full statement "sortTypes returns the indices in SOME order, each once": FALSE of
+the code — the preference relation is not acyclic. -/
+def SortVisitsAll : Prop := ∀ tys : List Ty, isPermutation tys.length (sortTypes tys) = true
+
+/-- the witness: three tuple types that prefer each other in a cycle (component-wise,
+`string` is preferred to `number`, and `list(bool)` is comparable to neither) are never
+visited; the returned order tries `types[0]` again instead -/
+def cycleTys : List Ty :=
+  [.tuple [.string, .list .bool, .number], .tuple [.number, .string, .list .bool],
+   .tuple [.list .bool, .number, .string], .string]
+
+theorem sort_counterexample :
+    (prefers cycleTys 0 1 && prefers cycleTys 1 2 && prefers cycleTys 2 0) = true ∧
+    sortTypes cycleTys = [3, 0, 0, 0] ∧ isPermutation 4 (sortTypes cycleTys) = false := by
+  refine ⟨by decide, by decide, by decide⟩
+
+theorem sortVisitsAll_false : ¬ SortVisitsAll := by
+  intro h
+  have := h cycleTys
+  rw [show cycleTys.length = 4 from rfl, sort_counterexample.2.2] at this
+  exact absurd this (by decide)
+
+/-- a consequence for `Unify`: with the cycle in the list, DynamicPseudoType — to which
+every input converts, and which `Unify` of the same list without the tuples answers —
+is never tried: the answer is NilType -/
+theorem sort_cycle_hides_candidate :
+    unify (Env.std Env.simple) 2 (cycleTys ++ [.dyn]) = .ok none ∧
+    (unify (Env.std Env.simple) 2 [.tuple [.string, .list .bool, .number], .string, .dyn]).map
+      (fun o => o.map (·.1)) = .ok (some .dyn) :=
+  ⟨rfl, rfl⟩
+
+example : (sortVisited [.dyn, .list .number, .set .string, .list .string]) = [3, 1, 2, 0] := by decide
+example : (sortVisited [.dyn, .list .number, .set .string, .list .string]).length = 4 := by decide
 
 end C09
 end CtyModel
